@@ -91,6 +91,7 @@ typedef struct {
 	bool has_memlimit;
 	bool timeout;          // threaded decoder with a timeout: LZMA_OK without progress may repeat
 	bool fileinfo;
+	bool mt;
 	uint64_t file_size;    // declared file size (file-info decoder)
 	bool no_finish;        // the coder does not support LZMA_FINISH
 } drive_cfg;
@@ -127,7 +128,7 @@ static void drive(lzma_stream *strm, const c04_op *op, const drive_cfg *cfg, c04
 	size_t pos = 0;              // read position in the input "file"
 	bool finishing = false;
 	bool force = false;          // after LZMA_BUF_ERROR: next call gets input and output space
-	unsigned noprog = 0, memlimit_events = 0;
+	unsigned noprog = 0, memlimit_events = 0, notifications = 0;
 	int final = -1;
 	const uint64_t nseek_max = op->in_len / 4 + 8;
 
@@ -247,8 +248,10 @@ static void drive(lzma_stream *strm, const c04_op *op, const drive_cfg *cfg, c04
 			continue;
 		}
 		if (ret == LZMA_NO_CHECK || ret == LZMA_UNSUPPORTED_CHECK || ret == LZMA_GET_CHECK) {
-			if (consumed == 0) {
-				c04_bad(r, "check-notification-%d-without-consuming-input", (int)ret);
+			// told at most once per Stream / member header (auto decoder: also once for a .lzma file, before any input
+			// is consumed), so their number is bounded by the input length
+			if (++notifications > op->in_len / 6 + 2) {
+				c04_bad(r, "check-notification-%d-repeated-%u-times", (int)ret, notifications);
 				final = (int)ret;
 				break;
 			}
@@ -257,7 +260,8 @@ static void drive(lzma_stream *strm, const c04_op *op, const drive_cfg *cfg, c04
 		}
 		if (ret == LZMA_MEMLIMIT_ERROR) {
 			const uint64_t need = lzma_memusage(strm), lim = lzma_memlimit_get(strm);
-			if (!cfg->has_memlimit || need <= lim) {
+			// (the threaded decoder reports the memory in use, not the amount the refused Block would need)
+			if (!cfg->has_memlimit || (need <= lim && !cfg->mt)) {
 				c04_bad(r, "LZMA_MEMLIMIT_ERROR-but-memusage=%" PRIu64 "<=memlimit=%" PRIu64, need, lim);
 				final = (int)ret;
 				break;
@@ -266,7 +270,12 @@ static void drive(lzma_stream *strm, const c04_op *op, const drive_cfg *cfg, c04
 				final = (int)ret;
 				break;
 			}
-			lzma_ret mr = lzma_memlimit_set(strm, need);
+			uint64_t newlim = need;
+			if (cfg->mt) {
+				const uint64_t base = lim > need ? lim : need;
+				newlim = base > (UINT64_MAX - 65536) / 2 ? UINT64_MAX : base * 2 + 65536;
+			}
+			lzma_ret mr = lzma_memlimit_set(strm, newlim);
 			if (mr != LZMA_OK) {
 				c04_bad(r, "lzma_memlimit_set(memusage)-returned-%d", (int)mr);
 				final = (int)ret;
@@ -377,6 +386,7 @@ bool c04_run_stream_ep(const c04_op *op, c04_res *r)
 			cfg.has_memlimit = true;
 			cfg.doc |= R_MEMLIMIT;
 			cfg.timeout = mt.timeout != 0;
+			cfg.mt = true;
 			drive(&strm, op, &cfg, r, &g);
 		}
 		finish_strm(&strm, r);
@@ -426,8 +436,9 @@ bool c04_run_stream_ep(const c04_op *op, c04_res *r)
 		}
 		lzma_ret ir = lzma_raw_decoder(&strm, f);
 		r->init_ret = (int)ir;
-		c04_check_ret(r, ep, (int)ir, R_OK | R_MEM | R_OPTIONS);
-		if (op->p[0] >= 24 && ir != LZMA_OPTIONS_ERROR)
+		// invalid option structs handed in by the application (chains >= 24) may be answered with LZMA_PROG_ERROR
+		c04_check_ret(r, ep, (int)ir, R_OK | R_MEM | R_OPTIONS | (op->p[0] >= 24 ? R_PROG : 0));
+		if (op->p[0] >= 24 && ir != LZMA_OPTIONS_ERROR && ir != LZMA_PROG_ERROR)
 			c04_bad(r, "raw-init-accepted-invalid-chain-%u:%d", (unsigned)op->p[0], (int)ir);
 		if (op->p[0] < 24 && ir == LZMA_OPTIONS_ERROR)
 			c04_bad(r, "raw-init-refused-valid-chain-%u", (unsigned)op->p[0]);
